@@ -23,14 +23,17 @@ pub struct Task {
     pub rounds: usize,
     pub bound: usize,
     pub max_points: usize,
+    /// initial sequence and number of hops probed per round (default 33434 / 3)
+    pub init: u16,
+    pub ttls: u8,
 }
 
 pub fn scfg(t: &Task) -> SCfg {
     SCfg {
         protocol: Protocol::Icmp,
         target_dist: (t.l > 0).then_some(t.l),
-        path_len: 3,
-        silent_hops: vec![],
+        path_len: t.ttls,
+        silent_hops: if t.ttls > 3 { (1..=t.ttls).collect() } else { vec![] },
         menu: SMenu {
             free_kind: true,
             time_menu: vec![T_NS, 0, EPS, T_NS - EPS],
@@ -43,13 +46,13 @@ pub fn scfg(t: &Task) -> SCfg {
         strategy: strat::strategy_config(
             Protocol::Icmp,
             1,
-            3,
-            24,
+            t.ttls,
+            if t.ttls > 3 { 255 } else { 24 },
             t.rounds,
             Duration::from_nanos(t.min),
             Duration::from_nanos(t.max),
             Duration::from_nanos(t.grace),
-            33434,
+            t.init,
         ),
     }
 }
@@ -144,7 +147,7 @@ pub fn monitor(t: &Task, o: &SOutcome) -> (Vec<(String, String)>, [u64; 3]) {
 }
 
 fn task_json(t: &Task) -> Value {
-    json!({"min_ns": t.min, "max_ns": t.max, "grace_ns": t.grace, "target_distance": t.l, "rounds": t.rounds})
+    json!({"min_ns": t.min, "max_ns": t.max, "grace_ns": t.grace, "target_distance": t.l, "rounds": t.rounds, "initial_sequence": t.init, "hops_probed": t.ttls})
 }
 
 fn digest(o: &SOutcome) -> u64 {
@@ -169,16 +172,24 @@ pub fn run(args: &Args) -> i32 {
             for &grace in &vals {
                 for l in [1u8, 2, 0] {
                     match tier {
-                        Tier::Quick => tasks.push(Task { min, max, grace, l, rounds: 2, bound: 3, max_points: 40 }),
+                        Tier::Quick => tasks.push(Task { min, max, grace, l, rounds: 2, bound: 3, max_points: 40, init: 33434, ttls: 3 }),
                         Tier::Thorough => {
                             // full product over the first round (<= 6 iterations), second round default
-                            tasks.push(Task { min, max, grace, l, rounds: 2, bound: usize::MAX, max_points: 10 });
-                            tasks.push(Task { min, max, grace, l, rounds: 3, bound: 4, max_points: 60 });
+                            tasks.push(Task { min, max, grace, l, rounds: 2, bound: usize::MAX, max_points: 10, init: 33434, ttls: 3 });
+                            tasks.push(Task { min, max, grace, l, rounds: 3, bound: 4, max_points: 60, init: 33434, ttls: 3 });
                         }
                     }
                 }
             }
         }
+    }
+    // long runs across the sequence restart (round bookkeeping that is reset "per round" must also
+    // be reset in the round that restarts the sequence space): 64 silent hops per round from the
+    // highest initial sequence - the allocator restarts after 8 rounds -, and a found target at
+    // distance 2 with 100 hops probed in the first round
+    for (min, max, grace) in [(T_NS, 2 * T_NS, T_NS), (0, 3 * T_NS, 0), (2 * T_NS, 2 * T_NS, T_NS)] {
+        let (min, max) = (min + 64 * T_NS, max + 64 * T_NS);
+        tasks.push(Task { min, max, grace, l: 0, rounds: 20, bound: if tier == Tier::Thorough { 2 } else { 1 }, max_points: 4000, init: 64511, ttls: 64 });
     }
     let agg = Mutex::new((mc::ExploreStats::default(), 0u64, 0u64, [0u64; 3], vec![]));
     let findings: Mutex<BTreeMap<String, Finding>> = Mutex::new(BTreeMap::new());
@@ -289,6 +300,16 @@ pub fn run(args: &Args) -> i32 {
     let (wstats, wrounds) = wagg.into_inner().unwrap();
     rep.set("wire_level_executions", json!(wstats.executions));
     rep.set("wire_level_rounds_checked", json!(wrounds));
+    // non-vacuity of the long runs: the default execution of each crosses a sequence restart
+    let mut restarts_crossed = 0u64;
+    for t in tasks.iter().filter(|t| t.init != 33434) {
+        let o = strat::run_strategy(scfg(t), Chooser::new(&[], 0));
+        let firsts: Vec<u16> = (0..o.world.publishes.len()).filter_map(|r| o.world.sends.iter().find(|s| s.round == r).map(|s| s.seq)).collect();
+        let n = firsts.windows(2).filter(|w| w[1] <= w[0]).count() as u64;
+        assert!(o.panic.is_some() || n >= 1, "MACHINERY: the long C08 run does not cross a sequence restart");
+        restarts_crossed += n;
+    }
+    rep.set("sequence_restarts_crossed_by_the_long_runs", json!(restarts_crossed));
     let (stats, digests, replays, obs, samples) = agg.into_inner().unwrap();
     rep.merge_findings(findings.into_inner().unwrap());
     rep.set("states", json!(stats.states));
@@ -303,7 +324,7 @@ pub fn run(args: &Args) -> i32 {
     rep.observe("publishes_by_target_rule", json!(obs[0]));
     rep.observe("publishes_by_time_limit_only", json!(obs[1]));
     rep.observe("reason_target_found_when_only_max_fired", json!(obs[2]));
-    rep.set("rule", json!("(min,max,grace) in {0,T,2T,3T}^3 with min<=max (40 settings) x target at {1,2,silent}; at every receive the environment picks none / any pending response and a time advance in {T,0,1ns,T-1ns}; quick: all executions with <=3 non-default answers over 2 rounds (<=40 choice points); thorough: the FULL product of the first 10 choice points (5 iterations) + <=4 deviations over 3 rounds. Monitor on the event trace: publish iff (dur>max) or (found and dur>min and now-last>grace), evaluated after every receive; dur <= max+T; reason; next round starts at the publish instant. Wire level: real Channel, 14 base cells x {silent path, 2-hop path}, unrelated ICMP Echo Requests arriving at the start or at the end of any receive wait, and delays, all executions with <= 3 (4 thorough) deviations: no round lasts longer than max + one read timeout from its first probe"));
+    rep.set("rule", json!("(min,max,grace) in {0,T,2T,3T}^3 with min<=max (40 settings) x target at {1,2,silent}; at every receive the environment picks none / any pending response and a time advance in {T,0,1ns,T-1ns}; quick: all executions with <=3 non-default answers over 2 rounds (<=40 choice points); thorough: the FULL product of the first 10 choice points (5 iterations) + <=4 deviations over 3 rounds. Monitor on the event trace: publish iff (dur>max) or (found and dur>min and now-last>grace), evaluated after every receive; dur <= max+T; reason; next round starts at the publish instant. + long runs: 64 silent hops per round, 20 rounds from initial sequence 64511 (the allocator restarts the sequence space every 8 rounds), 3 timing settings, <= 1 (2 thorough) deviations, same monitor on every round. Wire level: real Channel, 14 base cells x {silent path, 2-hop path}, unrelated ICMP Echo Requests arriving at the start or at the end of any receive wait, and delays, all executions with <= 3 (4 thorough) deviations: no round lasts longer than max + one read timeout from its first probe"));
     for s in samples {
         rep.sample(s);
     }
@@ -396,7 +417,7 @@ pub fn replay(path: &str) -> i32 {
     let v: Value = serde_json::from_str(&s).expect("MACHINERY: replay JSON");
     let r = if v.get("replay").is_some() { &v["replay"] } else { &v };
     let tj = &r["task"];
-    let t = Task { min: tj["min_ns"].as_u64().unwrap(), max: tj["max_ns"].as_u64().unwrap(), grace: tj["grace_ns"].as_u64().unwrap(), l: tj["target_distance"].as_u64().unwrap() as u8, rounds: tj["rounds"].as_u64().unwrap() as usize, bound: 0, max_points: 100_000 };
+    let t = Task { min: tj["min_ns"].as_u64().unwrap(), max: tj["max_ns"].as_u64().unwrap(), grace: tj["grace_ns"].as_u64().unwrap(), l: tj["target_distance"].as_u64().unwrap() as u8, rounds: tj["rounds"].as_u64().unwrap() as usize, bound: 0, max_points: 100_000, init: tj["initial_sequence"].as_u64().map_or(33434, |x| x as u16), ttls: tj["hops_probed"].as_u64().map_or(3, |x| x as u8) };
     let choices: Vec<u16> = r["choices"].as_array().unwrap().iter().map(|c| c.as_u64().unwrap() as u16).collect();
     let o = strat::run_strategy(scfg(&t), Chooser::new(&choices, 100_000));
     println!("replay C08 task={} choices={choices:?}", task_json(&t));
